@@ -125,14 +125,14 @@ PROPS['C09'] = {
 
 PROPS['C20'] = {
     'level': 'other',
-    'units': [],
+    'units': ['C19/qgrams'],
     'kani': [
         {'name': 'dna_complement', 'crate': 'alphabets', 'harness': 'dna_complement_all_bytes', 'timeout': 1200, 'obligation': 'dna::complement: involution, case preserving, identity outside the IUPAC table, lower-case twin, Watson-Crick pairs; all 256 bytes'},
         {'name': 'rna_complement', 'crate': 'alphabets', 'harness': 'rna_complement_all_bytes', 'timeout': 1200, 'obligation': 'rna::complement: the same over the RNA table'},
     ],
     'oracle': 'C20',
-    'decided': ['dna::complement and rna::complement (through the real lazy_static tables): involution on all 256 bytes, case preserved, bytes outside the IUPAC table unchanged, lower-case entries mirror upper-case ones (complete over the byte domain)'],
-    'undecided': ['ORF finder (VecDeque sliding window; not under contract)', 'Alphabet / RankTransform (thin wrappers over bit_set / vec_map)', 'gc_content (f32)', 'revcomp iterator chain (rev/map/collect: std adapter semantics)'],
+    'decided': ['RankTransform::new / get (unit shared with C19): the rank transform is an order-preserving bijection onto 0..|A| (rank r goes to the r-th smallest symbol)', 'dna::complement and rna::complement (through the real lazy_static tables): involution on all 256 bytes, case preserved, bytes outside the IUPAC table unchanged, lower-case entries mirror upper-case ones (complete over the byte domain)'],
+    'undecided': ['ORF finder (VecDeque sliding window; not under contract)', 'Alphabet::{new, is_word, max_symbol, len} (closure adapter chains over bit_set)', 'gc_content (f32)', 'revcomp iterator chain (rev/map/collect: std adapter semantics)'],
     'trusted': ['Kani/CBMC'],
     'level_text': 'Complete Kani proofs over the whole byte domain for the two complement tables; the ORF finder, alphabets and GC content are not decided by this check.',
     'level_note': 'Level other (partial). Trusted: Kani 0.68/CBMC 6.11.',
